@@ -21,6 +21,18 @@ Derived parameters (second sentence)
      the real gain set, every probe kind, nidq) + the shipped fixtures, validated by spec/trace/MetaDeriveTrace.tla
      from the raw fields of the file.
   7. binding self-tests: corrupted traces must be rejected.
+State the calls find and leave (audit after seed round e)
+  8. file forms: MetaGrammar.tla has the characters on disk (Frame: LF / CR LF line ends, line end after the last line or
+     not) and what the reader makes of them (ReadLines); Framing: the lines do not depend on the form; a reader that splits
+     the undecoded text at LF must be rejected.  Every real file of 2, 3, 5, 6 is written in one of the forms (cycled), the
+     shipped files with the bytes they are shipped with (5 have CR LF, 2 no final line end).
+  9. write_meta_data finds its destination absent / holding a longer file of another recording / being the file that was
+     parsed; file names are given as Path and as str; the dictionary of the first parse is copied before the writer and the
+     second parse see it; the model's files carry the derived key as a line of their own (as every written file does).
+ 10. every Reader is looked at twice (accessors in the opposite order) and once more after the next file has been written
+     and read: a look that shows something else than the first one becomes one more trace record (same clauses).  What must
+     not matter is varied in the files (dress): value of typeEnabled, foreign / empty keys, line order, bank / reference
+     numbers of IMRO entries; sample counts 0, 1, 2, 1e9, 3e9; files are named after their stream.
 
 Numeric clause decided by projection (not by TLC): sample2volts / range_volts are floats; range / maxint /
 sample2volts[ch] is projected onto an integer gain when within 1e-5 (relative) of one (the code keeps gains in
@@ -178,7 +190,7 @@ def grammar_trace(text, res):
         key = k.replace("~", "")
         d1, d2 = res["d1"], res["d2"]
         o = {"key": list(key), "k1": "none", "w": [], "k2": "none", "eqv": False, "big": _big(val),
-             "shadowed": lastline.get(key) != i}
+             "shadowed": lastline.get(key) != i or key in ("neuropixelVersion", "serial")}     # (the reader overwrites these two)
         if "=" in ln and key in d1:
             o["k1"] = kind_of(d1[key])
             o["w"] = list(written.get(key, "<missing>"))
@@ -309,7 +321,7 @@ def replay_exported_grammar(ctx, cases, rnd):
 # grammar: files for the trace direction
 # ------------------------------------------------------------------------------------------
 def random_value(rnd):
-    c = rnd.randrange(14)
+    c = rnd.randrange(16)
     dig = lambda n: "".join(rnd.choice("0123456789") for _ in range(n))   # noqa: E731
     nz = lambda: rnd.choice("123456789")   # noqa: E731
     if c == 0:
@@ -340,7 +352,19 @@ def random_value(rnd):
         return nz() + dig(rnd.randint(14, 22)) + rnd.choice(["", ".5", ".25"])
     if c == 12:
         return "0." + dig(rnd.randint(16, 25))
+    if c == 14:     # integer lists with elements beyond 2^31 / 2^53 digits apart (file sizes, serial numbers, first samples)
+        return ",".join(str(rnd.choice([2 ** 31, 2 ** 32 + 5, 36233200080, 18005116811, rnd.randrange(10 ** 9, 10 ** 15)]))
+                        for _ in range(rnd.randint(2, 6)))
+    if c == 15:     # long integer lists (a saved-channel subset spelled out)
+        return ",".join(str(i) for i in sorted(rnd.sample(range(0, 800), rnd.randint(40, 400))))
     return str(rnd.randrange(0, 10 ** 9))
+
+
+def edge_files():
+    """the smallest files of the grammar: no line at all, one line without a line end, an empty key, an empty value, a key with
+    blanks, a key that is a number, the two keys the reader derives present in the file itself"""
+    return ["", "k=v", "k=1", "=v\n", "=\n", "k=\n", "a b = c d\n", "12=34\n7=8,9\n", "k==\n", "~=~\n",
+            "neuropixelVersion=3B2\nserial=12\nk=0.5\n", "serial=7\n", "k=1\nk=2\nk=x\n"]
 
 
 def random_files(ctx, rnd):
@@ -366,6 +390,20 @@ def fixture_texts():
     import spikeglx
     fx = Path(spikeglx.__file__).resolve().parent / "tests" / "fixtures"
     return [(f.name, f.read_text()) for f in sorted(fx.glob("*.meta"))]
+
+
+def fixture_forms():
+    """name -> file form of the shipped file (its line ends, line end after the last line), so that the code under test gets the
+    bytes that are shipped; "raw" bytes if no form reproduces them"""
+    import spikeglx
+    fx = Path(spikeglx.__file__).resolve().parent / "tests" / "fixtures"
+    out = {}
+    for f in sorted(fx.glob("*.meta")):
+        raw, text = f.read_bytes(), f.read_text()
+        form = ("crlf" if b"\r\n" in raw else "lf") + ("" if raw.endswith(b"\n") or not raw else "-nofinal")
+        same = (text.replace("\n", "\r\n") if form.startswith("crlf") else text).encode() == raw
+        out[f.name] = {"form": form} if same else {"form": form, "raw": raw}
+    return out
 
 
 def metagen_texts(rnd):
@@ -426,58 +464,107 @@ def proj_gain(x, what):
     return g if g > 0 and abs(x - g) <= 1e-5 * g else -1
 
 
-def observe_derive(folder, text, name="rec_g0_t0.imec0.ap.meta"):
-    """reads the file with the real Reader and projects what it derives"""
+EMPTY_OBS = {"version": "", "major": "", "type": "", "nc": -1, "nsync": -1, "sync": [], "analog": [], "maxint": -1,
+             "s2v": [], "rv": [], "ns": -1, "fsok": False}
+LIVE = {}           # the Reader of the file observed before this one, still alive: {"sr", "cfg", "fstext", "t"}
+NOBS = [0]
+
+
+def project(sr, cfg, fstext, backwards=False):
+    """what a Reader derives, projected for the trace specification.  `backwards`: the same accessors in the opposite order
+    (range_volts before sample2volts, counts before version): a second look at an object must show what the first one showed"""
+    import spikeglx
+    md = sr.meta
+    if backwards:
+        rvv = np.asarray(sr.range_volts, dtype=np.float64)
+        s2v = np.asarray(sr.sample2volts, dtype=np.float64)
+    else:
+        s2v = np.asarray(sr.sample2volts, dtype=np.float64)
+        rvv = np.asarray(sr.range_volts, dtype=np.float64)
+    # three derived quantities have no public accessor: they are read through private helpers when those exist; otherwise the
+    # public Reader properties are used where they determine the value (sync traces = the last `nsync` ones) and the value
+    # of the independent reading is filled in where nothing public exposes it (that clause is then not observed: drift)
+    f_sync = getattr(spikeglx, "_get_sync_trace_indices_from_meta", None)
+    f_max = getattr(spikeglx, "_get_max_int_from_meta", None)
+    f_ana = getattr(spikeglx, "_get_analog_sync_trace_indices_from_meta", None)
+    for nm, fn in (("_get_sync_trace_indices_from_meta", f_sync), ("_get_max_int_from_meta", f_max),
+                   ("_get_analog_sync_trace_indices_from_meta", f_ana)):
+        if fn is None:
+            UNBOUND.add("spikeglx." + nm)
+    sync = [int(i) for i in f_sync(md)] if f_sync else list(range(int(sr.nc) - int(sr.nsync), int(sr.nc)))
+    if f_max:
+        maxint = int(f_max(md))
+    else:
+        maxint = cfg["maxInt"] if cfg["maxInt"] != -1 else (512 if cfg["typeThis"] == "imec" else 32768)
+    if f_ana:
+        analog = [int(i) for i in f_ana(md)]
+    else:
+        mn = cfg["mnmaxadw"]
+        analog = list(range(mn[0] + mn[1], mn[0] + mn[1] + mn[2])) if cfg["typeThis"] == "nidq" and len(mn) == 4 else []
+    rg = cfg["rangeC"] / 100.0
+    s2 = [["unit"] if x == 1.0 else [cfg["rangeC"], maxint, proj_gain(rg / maxint / x, "s2v")] for x in s2v]
+    rv = [0 if i in sync else proj_gain(rg / x, "rv") for i, x in enumerate(rvv)]
+    try:
+        ns = int(sr.ns)
+    except TypeError:     # metadata of a running acquisition has no fileTimeSecs
+        ns = -1
+    if backwards:
+        nc, nsync, typ, major, version = int(sr.nc), int(sr.nsync), str(sr.type), str(sr.major_version), str(sr.version)
+    else:
+        version, major, typ, nc, nsync = str(sr.version), str(sr.major_version), str(sr.type), int(sr.nc), int(sr.nsync)
+    obs = {"version": version, "major": major, "type": typ, "nc": nc, "nsync": nsync, "sync": sync, "analog": analog,
+           "maxint": maxint, "s2v": s2, "rv": rv, "ns": ns,
+           "fsok": bool(fstext is not None and float(sr.fs) == float(fstext))}
+    if obs["nsync"] != len(sync):
+        obs["sync"] = [-1] * obs["nsync"]      # Reader.nsync and the index list disagree
+    return obs
+
+
+def look_again(rec, when):
+    """a later look at a Reader that was observed before: what differs from the first observation becomes one more record of
+    the same file (judged by the same clauses)"""
+    t = rec["t"]
+    if t["exc"]:
+        return
+    try:
+        obs, exc = project(rec["sr"], rec["cfg"], rec["fstext"], backwards=True), ""
+    except Exception as e:
+        obs, exc = dict(EMPTY_OBS), type(e).__name__
+    if exc or obs != t["obs"]:
+        t.setdefault("later", []).append({"cfg": t["cfg"], "exc": exc, "obs": obs, "when": when})
+
+
+def observe_derive(folder, text, name=None, form="lf", raw=None):
+    """reads the file (written in file form `form`, under the name of its stream) with the real Reader and projects what it
+    derives; looks a second time at the same object, and a second time at the Reader of the previous file, which is still alive
+    while the file it was made from has been overwritten (both must show what they showed first)"""
     import spikeglx
     folder = Path(folder)
     folder.mkdir(parents=True, exist_ok=True)
-    f = folder / name
-    f.write_text(text)
     cfg, fstext = cfg_from_text(text)
-    t = {"cfg": cfg, "exc": "", "obs": None}
+    if name is None:
+        name = "rec_g0_t0.nidq.meta" if cfg["typeThis"] == "nidq" else \
+            f"rec_g0_t0.imec0.{'ap' if cfg['aplfsy'] and cfg['aplfsy'][0] > 0 else 'lf'}.meta"
+    f = folder / name
+    write_form(f, text, form, raw)
+    NOBS[0] += 1
+    t = {"cfg": cfg, "exc": "", "obs": None, "how": f"file form {form if raw is None else 'as shipped'}", "form": form}
+    sr = None
     try:
-        sr = spikeglx.Reader(f)
-        md = sr.meta
-        s2v = np.asarray(sr.sample2volts, dtype=np.float64)
-        rvv = np.asarray(sr.range_volts, dtype=np.float64)
-        # three derived quantities have no public accessor: they are read through private helpers when those exist; otherwise the
-        # public Reader properties are used where they determine the value (sync traces = the last `nsync` ones) and the value
-        # of the independent reading is filled in where nothing public exposes it (that clause is then not observed: drift)
-        f_sync = getattr(spikeglx, "_get_sync_trace_indices_from_meta", None)
-        f_max = getattr(spikeglx, "_get_max_int_from_meta", None)
-        f_ana = getattr(spikeglx, "_get_analog_sync_trace_indices_from_meta", None)
-        for nm, fn in (("_get_sync_trace_indices_from_meta", f_sync), ("_get_max_int_from_meta", f_max),
-                       ("_get_analog_sync_trace_indices_from_meta", f_ana)):
-            if fn is None:
-                UNBOUND.add("spikeglx." + nm)
-        sync = [int(i) for i in f_sync(md)] if f_sync else list(range(int(sr.nc) - int(sr.nsync), int(sr.nc)))
-        if f_max:
-            maxint = int(f_max(md))
-        else:
-            maxint = cfg["maxInt"] if cfg["maxInt"] != -1 else (512 if cfg["typeThis"] == "imec" else 32768)
-        if f_ana:
-            analog = [int(i) for i in f_ana(md)]
-        else:
-            mn = cfg["mnmaxadw"]
-            analog = list(range(mn[0] + mn[1], mn[0] + mn[1] + mn[2])) if cfg["typeThis"] == "nidq" and len(mn) == 4 else []
-        rg = cfg["rangeC"] / 100.0
-        s2 = [["unit"] if x == 1.0 else [cfg["rangeC"], maxint, proj_gain(rg / maxint / x, "s2v")] for x in s2v]
-        rv = [0 if i in sync else proj_gain(rg / x, "rv") for i, x in enumerate(rvv)]
-        try:
-            ns = int(sr.ns)
-        except TypeError:     # metadata of a running acquisition has no fileTimeSecs
-            ns = -1
-        t["obs"] = {"version": str(sr.version), "major": str(sr.major_version), "type": str(sr.type), "nc": int(sr.nc),
-                    "nsync": int(sr.nsync), "sync": sync,
-                    "analog": analog,
-                    "maxint": maxint, "s2v": s2, "rv": rv, "ns": ns,
-                    "fsok": bool(fstext is not None and float(sr.fs) == float(fstext))}
-        if t["obs"]["nsync"] != len(sync):
-            t["obs"]["sync"] = [-1] * t["obs"]["nsync"]      # Reader.nsync and the index list disagree
+        sr = spikeglx.Reader(f if NOBS[0] % 4 else str(f))
+        t["obs"] = project(sr, cfg, fstext)
     except Exception as e:
         t["exc"] = type(e).__name__
-        t["obs"] = {"version": "", "major": "", "type": "", "nc": -1, "nsync": -1, "sync": [], "analog": [], "maxint": -1,
-                    "s2v": [], "rv": [], "ns": -1, "fsok": False}
+        t["obs"] = dict(EMPTY_OBS)
+    rec = {"sr": sr, "cfg": cfg, "fstext": fstext, "t": t, "text": text}
+    if sr is not None:
+        look_again(rec, "second look at the same Reader")
+    if LIVE and LIVE.get("sr") is not None:
+        look_again(LIVE, "look at a Reader after the next file was read under the same name")
+        if "later" in LIVE["t"]:
+            LIVE["t"]["after"] = text
+    LIVE.clear()
+    LIVE.update(rec)
     return t
 
 
@@ -514,6 +601,29 @@ def meta_from_cfg(cfg, rnd, ns=1000):
     return "\n".join(lines) + "\n"
 
 
+def dress(text, rnd, imro=False):
+    """the same metadata with what must not matter varied: the value of typeEnabled (3A: "imec,nidq" when a nidq stream ran
+    along), the enable keys of 3B (typeImEnabled / typeNiEnabled), empty / foreign keys, the order of the lines (a dictionary has
+    none); with `imro` also bank / reference / filter numbers of the IMRO entries (the gains stay where they are)"""
+    lines = text.splitlines()
+    if any(ln.startswith("typeEnabled=") for ln in lines):
+        lines = [f"typeEnabled={rnd.choice(['imec', 'imec,nidq', 'nidq,imec'])}" if ln.startswith("typeEnabled=") else ln for ln in lines]
+    elif rnd.random() < 0.5:
+        lines += [f"typeImEnabled={rnd.randint(0, 2)}", f"typeNiEnabled={rnd.randint(0, 1)}"]
+    if rnd.random() < 0.5:
+        lines += rnd.sample(["userNotes=", "imStdby=", "syncSourceIdx=0", "gateMode=Immediate", "imRoFile=", "trigMode=Immediate",
+                             "fileCreateTime=2019-05-07T17:24:02", "syncImThresh=3", "~muxTbl=(32,12)(0 1 24 25 48 49)"], 3)
+    if imro:
+        def entry(m):
+            tail = f" {rnd.randint(0, 1)}" if m.group(6) else ""
+            return f"({m.group(1)} {rnd.randint(0, 2)} {rnd.randint(0, 3)} {m.group(4)} {m.group(5)}{tail})"
+        lines = [re.sub(r"\(([0-9]+) ([0-9]+) ([0-9]+) ([1-9][0-9]*) ([1-9][0-9]*)( [0-9]+)?\)", entry, ln)
+                 if split_line(ln)[0].replace("~", "") == "imroTbl" else ln for ln in lines]
+    if rnd.random() < 0.25:
+        rnd.shuffle(lines)
+    return "\n".join(lines) + "\n"
+
+
 def full_size_texts(ctx, rnd):
     """full-size files: saved-channel counts 1..384, non-uniform gain pairs of the real gain set"""
     out = []
@@ -530,7 +640,8 @@ def full_size_texts(ctx, rnd):
                 wm = True if major != 1 else rnd.random() < 0.5
                 if not wm:
                     mi = 512
-                txt, _ = metagen.make_meta(kind, metagen.dense_sites(kind)[:n], stream=stream, ns=rnd.randrange(10, 10 ** 7),
+                ns = rnd.randrange(10, 10 ** 7) if rnd.random() < 0.8 else rnd.choice([0, 1, 2, 10 ** 9 + 7, 3 * 10 ** 9])
+                txt, _ = metagen.make_meta(kind, metagen.dense_sites(kind)[:n], stream=stream, ns=ns,
                                            nsync=rnd.choice([1, 1, 0]), gains=gains, range_max=rg, maxint=mi, write_maxint=wm,
                                            fs=rnd.choice([30000, 2500, 30000.390639481]),
                                            encoding=rnd.choice(["shank", "geom"]) if major != "NPultra" else "shank")
@@ -541,14 +652,14 @@ def full_size_texts(ctx, rnd):
                     txt = "".join(ln + "\n" for ln in txt.splitlines() if not ln.startswith(("imDatPrb_port", "imDatPrb_slot")))
                 if major == 2 and rnd.random() < 0.4:
                     txt = txt.replace(f"imDatPrb_type={ptype}", f"imDatPrb_type={ {21: 1030, 24: 2013}[ptype]}")
-                out.append(txt)
+                out.append(dress(txt, rnd, imro=True))
     for _ in range(20 if ctx.quick else 300):
         txt, _ = metagen.make_nidq_meta(rnd.randint(0, 8), rnd.randint(0, 8), rnd.randint(0, 8), rnd.randint(0, 2),
                                         ns=rnd.randrange(10, 10 ** 7), mn_gain=rnd.choice([1, 10, 200, 500]),
                                         ma_gain=rnd.choice([1, 2, 10]), range_max=rnd.choice([5, 2, 10]),
                                         fs=rnd.choice([30003.0003, 25000, 32768.5]))
         if "nSavedChans=0\n" not in txt:
-            out.append(txt)
+            out.append(dress(txt, rnd))
     return out
 
 
@@ -570,7 +681,8 @@ def describe_cfg(c):
 
 
 def check_derive_traces(ctx, texts, trs, label):
-    verdicts = tracecheck.validate(ctx, DMOD, DCFG, trs, label=label, jvms=4, workers=2, nstates=d_nstates)
+    clean = [{k: t[k] for k in ("cfg", "exc", "obs")} for t in trs]
+    verdicts = tracecheck.validate(ctx, DMOD, DCFG, clean, label=label, jvms=4, workers=2, nstates=d_nstates)
     for vd in verdicts:
         t = trs[vd["index"]]
         if vd["prop"]:
@@ -578,7 +690,8 @@ def check_derive_traces(ctx, texts, trs, label):
             ctx.violation(derive_key(t, vd["prop"]),
                           f"{describe_cfg(t['cfg'])}: property-layer clause {vd['prop']} false (observed version={o['version']} "
                           f"type={o['type']} nc={o['nc']} sync={o['sync']} analog={o['analog']} maxint={o['maxint']} "
-                          f"s2v[:3]={o['s2v'][:3]} .. {o['s2v'][-2:]})", {"kind": "derive", "text": texts[vd["index"]]})
+                          f"s2v[:3]={o['s2v'][:3]} .. {o['s2v'][-2:]}) [{t.get('how', '')}]",
+                          {"kind": "derive", "text": texts[vd["index"]], "form": t.get("form", "lf"), "after": t.get("after")})
         elif vd["impl"]:
             ctx.spec_drift(f"{describe_cfg(t['cfg'])}: {vd['impl']} differs from the implementation layer of "
                            f"spec/lib/MetaDerive.tla (every property-layer formula holds)")
@@ -588,10 +701,11 @@ def check_derive_traces(ctx, texts, trs, label):
 def replay_exported_derive(ctx, exported, rnd):
     folder = Path(ctx.scratch) / "c09d"
     texts, trs = [], []
+    off = rnd.randrange(len(FORMS))
     for rec in exported:
         cfg, exp = rec["cfg"], rec["exp"]
-        text = meta_from_cfg(cfg, rnd)
-        t = observe_derive(folder, text)
+        text = dress(meta_from_cfg(cfg, rnd), rnd)
+        t = observe_derive(folder, text, form=FORMS[(len(trs) + off) % len(FORMS)])
         # the file must say what the configuration says (guards metagen / meta_from_cfg)
         back = {k: t["cfg"][k] for k in cfg}
         if back != cfg:
@@ -616,6 +730,7 @@ def run_models(ctx):
         "grammar": ("mc/MC_MetaGrammar.tla", f"mc/MetaGrammar_{tier}.cfg", {"OUT_FILE": str(gout)}),
         "derive": ("mc/MC_MetaDerive.tla", f"mc/MetaDerive_{tier}.cfg", {"OUT_FILE": str(dout)}),
         "grammar_orig": ("mc/MC_MetaGrammar.tla", "mc/MetaGrammar_orig.cfg", {"OUT_FILE": str(gout) + ".unused"}),
+        "grammar_rawsplit": ("mc/MC_MetaGrammar.tla", "mc/MetaGrammar_rawsplit.cfg", {"OUT_FILE": str(gout) + ".unused"}),
         "mut_swapgain": ("mc/MC_MetaDerive.tla", "mc/MetaDerive_mut_swapgain.cfg", {}),
         "mut_allentries": ("mc/MC_MetaDerive.tla", "mc/MetaDerive_mut_allentries.cfg", {}),
         "mut_nidqorder": ("mc/MC_MetaDerive.tla", "mc/MetaDerive_mut_nidqorder.cfg", {}),
@@ -632,10 +747,12 @@ def run_models(ctx):
     # model self-tests: the property layers reject the wrong implementation layers
     if res["grammar_orig"].ok or res["grammar_orig"].invariant_violated != "ValueRoundTrip":
         raise tlc.TLCError("model self-test: the pre-fix writer (exponent notation) is not rejected by ValueRoundTrip")
+    if res["grammar_rawsplit"].ok or res["grammar_rawsplit"].invariant_violated != "Framing":
+        raise tlc.TLCError("model self-test: a reader that splits the undecoded text at LF is not rejected by Framing")
     for name in ("mut_swapgain", "mut_allentries", "mut_nidqorder"):
         if res[name].ok or res[name].invariant_violated != "AgreeS2V":
             raise tlc.TLCError(f"model self-test: the wrong implementation layer {name} is not rejected by AgreeS2V")
-    ctx.cov["model_selftest_rejected"] = ["MetaGrammar Variant=orig", "MetaDerive swapgain", "MetaDerive allentries",
+    ctx.cov["model_selftest_rejected"] = ["MetaGrammar Variant=orig", "MetaGrammar Variant=rawsplit", "MetaDerive swapgain", "MetaDerive allentries",
                                           "MetaDerive nidqorder"]
     return res, (json.loads(gout.read_text()) if gout.exists() else []), (json.loads(dout.read_text()) if dout.exists() else [])
 
@@ -659,14 +776,32 @@ def run(ctx):
         if not bad:
             raise tlc.TLCError(f"the model violates {res['grammar'].invariant_violated} at {val!r} but the real code does not: "
                                f"the implementation layer of spec/lib/MetaGrammar.tla misrepresents the code")
-    btexts, bresults, _ = replay_exported_grammar(ctx, gcases, rnd)
-    ftexts = [tx for _, tx in fixture_texts()] + [tx for _, tx in metagen_texts(rnd)] + random_files(ctx, rnd)
+    btexts, bresults, _, must = replay_exported_grammar(ctx, gcases, rnd)
     folder = Path(ctx.scratch) / "c09g"
-    fresults = [round_trip(folder, tx) for tx in ftexts]
+    ftexts, fresults = [], []
+    # the shipped files go through the real code with the bytes they are shipped with (CR LF line ends, no final line end), once
+    # to a fresh destination and once written back in place; every other file in a file form / destination state / name
+    # spelling drawn for it (all of them come up: forms and destinations are cycled)
+    fforms = fixture_forms()
+    for j, (name, tx) in enumerate(fixture_texts()):
+        for dest in ("fresh", "inplace") if ctx.quick else DESTS:
+            scn = {"form": fforms[name]["form"], "dest": dest, "aspath": (j + len(dest)) % 2 == 0}
+            ftexts.append(tx)
+            fresults.append(round_trip(folder, tx, raw=fforms[name].get("raw"), **scn))
+            fresults[-1]["scn"] = scn
+    others = [tx for _, tx in metagen_texts(rnd)] + edge_files() + random_files(ctx, rnd)
+    o1, o2 = rnd.randrange(len(FORMS)), rnd.randrange(len(DESTS))
+    for j, tx in enumerate(others):
+        scn = {"form": FORMS[(j + o1) % len(FORMS)], "dest": DESTS[(j // len(FORMS) + o2) % len(DESTS)], "aspath": j % 3 != 0}
+        ftexts.append(tx)
+        fresults.append(round_trip(folder, tx, **scn))
+        fresults[-1]["scn"] = scn
     ctx.count(len(ftexts))
     nb = 6 if ctx.quick else 40
-    gt_texts = btexts[:nb] + ftexts
-    gtrs, gbad = check_grammar_traces(ctx, gt_texts, bresults[:nb] + fresults, "grammar")
+    chosen = list(range(min(nb, len(btexts)))) + [i for i in must if i >= nb]
+    nb = len(chosen)
+    gt_texts = [btexts[i] for i in chosen] + ftexts
+    gtrs, gbad = check_grammar_traces(ctx, gt_texts, [bresults[i] for i in chosen] + fresults, "grammar")
     for t in gtrs[nb:nb + 2]:
         ctx.sample({"grammar_file_lines": len(t["lines"]), "raised1": t["raised1"], "equal": t["equal"],
                     "first_obs": [{k: (''.join(o[k]) if isinstance(o[k], list) else o[k]) for k in o} for o in t["obs"][:2]]})
@@ -680,14 +815,22 @@ def run(ctx):
     ndirect = len(dtrs)
     folder = Path(ctx.scratch) / "c09d"
     extra = full_size_texts(ctx, rnd)
+    off = rnd.randrange(len(FORMS))
     for i, tx in enumerate(extra):
         dtexts.append(tx)
-        dtrs.append(observe_derive(folder, tx))
+        dtrs.append(observe_derive(folder, tx, form=FORMS[(i + off) % len(FORMS)]))
         ctx.count(1, key=("dfull", i))
-    for name, tx in fixture_texts():
+    fforms = fixture_forms()
+    for name, tx in fixture_texts():        # (with the bytes they are shipped with)
         dtexts.append(tx)
-        dtrs.append(observe_derive(folder, tx, name=name))
+        dtrs.append(observe_derive(folder, tx, name=name, form=fforms[name]["form"], raw=fforms[name].get("raw")))
         ctx.count(1, key=("dfix", name))
+    # later looks at a Reader that showed something else than its first observation: one more record each, same clauses
+    for i in range(len(dtrs)):
+        for lt in dtrs[i].pop("later", []):
+            dtexts.append(dtexts[i])
+            dtrs.append({"cfg": lt["cfg"], "exc": lt["exc"], "obs": lt["obs"], "how": f"{dtrs[i]['how']}; {lt['when']}",
+                         "form": dtrs[i]["form"], "after": dtrs[i].get("after")})
     direct = {i: t.pop("direct") for i, t in enumerate(dtrs) if "direct" in t}
     dbad = check_derive_traces(ctx, dtexts, dtrs, "derive")
     if UNBOUND:
@@ -706,9 +849,15 @@ def run(ctx):
     selftest_grammar(ctx, gt_texts, gtrs, gbad)
     selftest_derive(ctx, dtrs, dbad)
     ctx.cov["rule"] = ("grammar: every abstract value string up to the export length instantiated with concrete characters "
-                       "(non-trivial = not a plain string), random long values, tilde / duplicate keys, shipped fixtures, "
-                       "metagen files; derive: every configuration of the model's space + full-size files (saved counts "
-                       "1..384, random non-uniform gain pairs) + fixtures (non-trivial = nidq or non-uniform gains)")
+                       "(non-trivial = not a plain string), random long values, tilde / duplicate keys, shipped fixtures (with "
+                       "the bytes they are shipped with), metagen files, the smallest files; every file in one of the forms "
+                       "{LF, CR LF} x {line end after the last line or not}, written to a destination that is {absent, a longer "
+                       "file of another recording, the file that was parsed}, names as Path or str; derive: every configuration "
+                       "of the model's space + full-size files (saved counts 1..384, random non-uniform gain pairs, sample counts "
+                       "0 .. 3e9) + fixtures (non-trivial = nidq or non-uniform gains), in the same file forms, with what must not "
+                       "matter varied (value of typeEnabled, foreign keys, line order, bank / reference numbers of the IMRO "
+                       "entries); every Reader is looked at twice (accessors in both orders) and once more after the next file "
+                       "was read")
     ctx.cov["exhaustive"] = True
     ctx.cov["numeric_postconditions"] = ["range / maxint / sample2volts[ch] and range / range_volts[ch] projected onto an "
                                          "integer gain (1e-5 relative); sync factor exactly 1.0; fs compared as float"]
@@ -767,7 +916,7 @@ def selftest_derive(ctx, trs, bad):
         raise tlc.TLCError("selftest: not enough accepted derive traces with non-uniform gains and a sync trace")
     mut = []
     for j, i in enumerate(cands[:28]):
-        t = copy.deepcopy(trs[i])
+        t = copy.deepcopy({x: trs[i][x] for x in ("cfg", "exc", "obs")})
         o = t["obs"]
         k = j % 7
         if k == 0:                                   # gains of two channels exchanged
@@ -802,8 +951,12 @@ def replay(ctx, sc):
     import logging
     logging.getLogger("ibllib").setLevel(logging.CRITICAL)
     if sc["kind"] == "grammar":
-        res = round_trip(Path(ctx.scratch) / "c09g", sc["text"])
+        res = round_trip(Path(ctx.scratch) / "c09g", sc["text"], form=sc.get("form", "lf"), dest=sc.get("dest", "fresh"),
+                         aspath=sc.get("aspath", True))
         check_grammar_traces(ctx, [sc["text"]], [res], "replay")
     else:
-        t = observe_derive(Path(ctx.scratch) / "c09d", sc["text"])
-        check_derive_traces(ctx, [sc["text"]], [t], "replay")
+        t = observe_derive(Path(ctx.scratch) / "c09d", sc["text"], form=sc.get("form") or "lf")
+        if sc.get("after"):             # the history of the case: the file that was read next, while this Reader was alive
+            observe_derive(Path(ctx.scratch) / "c09d", sc["after"])
+        trs = [t] + [{"cfg": lt["cfg"], "exc": lt["exc"], "obs": lt["obs"], "how": lt["when"]} for lt in t.pop("later", [])]
+        check_derive_traces(ctx, [sc["text"]] * len(trs), trs, "replay")
